@@ -344,7 +344,7 @@ PROPS['C12'] = {
                   'and on fixture files of JPEG/GIF/PNG/JPEG XL with bytes appended. The chunk scanner (byteorder reads, String::from_utf8, io::Error drops) timed out in CBMC twice and is outside Verus.',
     'level_note': 'trailing-bytes findings recorded in KNOWN_FINDINGS.txt (S5); JPEG/GIF/JXL parsers only on fixtures; data-hash regions (get_object_locations_from_stream) not covered.',
     'technique': TECH_B,
-    'parts': [B('native:box_maps', 'sdk', [T('c12_png_box_map_small_grammar'), T('c12_sidecar_box_map'), T('c12_fixture_box_maps')],
+    'parts': [B('native:box_maps', 'sdk', [T('c12_png_box_map_small_grammar'), T('c12_jxl_box_map_small_grammar'), T('c12_sidecar_box_map'), T('c12_fixture_box_maps')],
                 functions=[('sdk/src/asset_handlers/png_io.rs', 'get_png_chunk_positions'), ('sdk/src/asset_handlers/png_io.rs', 'get_box_map', r'impl AssetBoxHash for PngIO \{'),
                            ('sdk/src/asset_handlers/c2pa_io.rs', 'get_box_map', r'impl AssetBoxHash for C2paIO \{')],
                 bounds='PNG grammar: 1..=3 chunks (thorough 4), 6 types, 0..=2 data bytes, 0..=3 trailing bytes, 4 truncation points (thorough: all)')],
@@ -413,7 +413,7 @@ PROPS['C31'] = {
                   'Mutex is outside Verus; HashMap made CBMC intractable.',
     'level_note': 'the ~120 extern "C" wrappers and guard macros that call the registry are not covered; foreign pointers are modelled as untracked addresses.',
     'technique': TECH_B,
-    'parts': [B('native:pointer_registry', 'ffi', [T('c31_registry_matches_model_all_short_sequences')],
+    'parts': [B('native:pointer_registry', 'ffi', [T('c31_registry_matches_model_all_short_sequences'), T('c31_released_handles_are_untracked_and_second_free_is_an_error')],
                 functions=[('c2pa_c_ffi/src/cimpl/utils.rs', 'track'), ('c2pa_c_ffi/src/cimpl/utils.rs', 'validate'), ('c2pa_c_ffi/src/cimpl/utils.rs', 'untrack'), ('c2pa_c_ffi/src/cimpl/utils.rs', 'free')],
                 bounds='all operation sequences of length 1..=4 (thorough 5) over 28 operations from the empty registry', timeout=3000)],
     'trusted_base': ['rustc', 'the model in kani/ffi_utils.rs'],
